@@ -213,7 +213,7 @@ def forms_case(fa, cid, g, ir, rnd):
 
 def run_c12(ctx, fa):
     rnd = ctx.sub_rnd("c12")
-    n = 220 if ctx.quick() else 3000
+    n = 600 if ctx.quick() else 4000
     cases = []
     tries = 0
     while len(cases) < n and tries < 8 * n:
